@@ -390,6 +390,40 @@ pub fn worker(which: &str, seed: u64, thorough: bool, start: usize, out_path: &s
 }
 
 /// parent: K worker processes (case index modulo K); a worker that dies marks its current case as aborted and is restarted
+/// The same decoders through a HUMAN-READABLE serde format (JSON): hostile texts - strings of the byte lengths a text
+/// codec could expect with multi-byte characters across even offsets, wrong shapes, huge numbers - give a value or an
+/// error, never a panic (run in-process under catch_unwind: nothing here allocates in proportion to a length prefix).
+fn text_format_cases() -> Vec<Value> {
+    use std::panic::{catch_unwind, AssertUnwindSafe};
+    let mut texts: Vec<String> = vec![];
+    for n in [64usize, 96, 192, 63, 65] {
+        let mut s = String::from("0\u{e9}");
+        while s.len() < n { s.push('0'); }
+        texts.push(format!("\"{}\"", s));
+        let mut s2 = String::new();
+        while s2.len() + 3 <= n { s2.push('\u{20ac}'); }
+        while s2.len() < n { s2.push('f'); }
+        texts.push(format!("\"{}\"", s2));
+        texts.push(format!("\"{}\"", "ab".repeat(n / 2)));
+    }
+    texts.extend(["[]", "[1,2,3]", "\"\"", "null", "{}", "123456789012345678901234567890", "[[0]]", "{\"sigma1\":\"00\",\"sigma2\":\"00\"}", "-1", "[256]"].iter().map(|s| s.to_string()));
+    fn one<T: serde::de::DeserializeOwned>(ty: &str, text: &str) -> Value {
+        let r = catch_unwind(AssertUnwindSafe(|| serde_json::from_str::<T>(text).is_ok()));
+        let out = match r { Ok(true) => "ok".to_string(), Ok(false) => "err".to_string(), Err(e) => format!("panic:{}", crate::util::panic_message(e)) };
+        json!({"ev": "c16", "case": 0, "kind": "text", "type": ty, "text_len": text.len(), "out": out, "reencodes": true, "input_len": text.len(), "max_alloc": 0, "alloc_in_proportion": true})
+    }
+    let mut out = vec![];
+    for t in &texts {
+        out.push(one::<BlindingFactor>("BlindingFactor (JSON)", t));
+        out.push(one::<zkchannels_crypto::pointcheval_sanders::Signature>("Signature (JSON)", t));
+        out.push(one::<zkchannels_crypto::pointcheval_sanders::PublicKey<1>>("PublicKey<1> (JSON)", t));
+        out.push(one::<zkabacus_crypto::Nonce>("Nonce (JSON)", t));
+        out.push(one::<zkabacus_crypto::revlock::RevocationPair>("RevocationPair (JSON)", t));
+        out.push(one::<zkabacus_crypto::ChannelId>("ChannelId (JSON)", t));
+    }
+    out
+}
+
 pub fn parent(which: &str, seed: u64, thorough: bool, out_path: &str) {
     const K: usize = 8;
     let exe = std::env::current_exe().unwrap();
@@ -422,6 +456,9 @@ pub fn parent(which: &str, seed: u64, thorough: bool, out_path: &str) {
     let mut events: Vec<Value> = vec![];
     for h in handles { events.extend(h.join().expect("wire parent thread")); }
     events.sort_by_key(|e| e["case"].as_u64().unwrap_or(0));
+    if which == "c16" {
+        events.extend(text_format_cases());
+    }
     let mut f = std::io::BufWriter::new(std::fs::File::create(out_path).unwrap());
     use std::io::Write;
     for e in events { writeln!(f, "{}", e).unwrap(); }
